@@ -258,6 +258,11 @@ func (e *Engine) sendPoisonPill(ctx context.Context, graceful bool, pid *PID) co
 func (e *Engine) SendLocal(pid *PID, msg any, sender *PID) {
 	proc := e.Registry.get(pid)
 	if proc == nil {
+		// the event stream itself is gone: nobody is left to tell, and reporting
+		// it would only come back here.
+		if e.eventStream != nil && pid.Equals(e.eventStream) {
+			return
+		}
 		// broadcast a deadLetter message
 		e.BroadcastEvent(DeadLetterEvent{
 			Target:  pid,
